@@ -567,18 +567,23 @@ func c08Show(text string) string {
 // drawC08Text draws one journal text: a parseable journal in a noisy layout, or
 // byte-level edits of one (mostly unparseable; those that still parse are odd
 // layouts the renderer would not produce).
-func drawC08Text(t *rapid.T, maxN int, mutatedShare int, extra *ref.Directive) (string, string) {
+func drawC08Text(t *rapid.T, maxN int, mutatedShare int, extra *ref.Directive, largeOneIn int) (string, string) {
 	src := "valid"
 	if rapid.IntRange(0, 9).Draw(t, "mutated") < mutatedShare {
 		src = "mutated"
 	}
 	ds := gen.GenSyntaxJournal(t, maxN, true)
+	if gen.Rare(t, "largeFile", largeOneIn) {
+		// a file of realistic size (beyond a thousand directives, up to several hundred KiB)
+		ds = gen.GenSyntaxJournalN(t, 1025, 4500, true)
+		src += "+large"
+	}
 	if extra != nil {
 		at := rapid.IntRange(0, len(ds)).Draw(t, "includeAt")
 		ds = append(ds[:at:at], append([]ref.Directive{*extra}, ds[at:]...)...)
 	}
 	text := gen.RenderNoisy(t, ds)
-	if src == "mutated" {
+	if strings.HasPrefix(src, "mutated") {
 		text = gen.Mutate(t, text)
 	} else if rapid.IntRange(0, 14).Draw(t, "strayAnnotation") == 0 {
 		if s, ok := c08StrayAnnotation(t, text); ok {
@@ -615,7 +620,7 @@ func c08StrayAnnotation(t *rapid.T, text string) (string, bool) {
 
 func drawC08(t *rapid.T, cli bool) C08Case {
 	if !cli {
-		text, src := drawC08Text(t, 10, 3, nil)
+		text, src := drawC08Text(t, 10, 3, nil, 8)
 		return C08Case{Files: []C08File{{Name: "j.knut", Text: []byte(text), Source: src, Show: c08Show(text)}}}
 	}
 	c := C08Case{CLI: true}
@@ -635,7 +640,7 @@ func drawC08(t *rapid.T, cli bool) C08Case {
 		if n > 1 {
 			share = 2 // keep all-parse invocations frequent with several files
 		}
-		text, src := drawC08Text(t, 6, share, extra)
+		text, src := drawC08Text(t, 6, share, extra, 5)
 		c.Files = append(c.Files, C08File{Name: names[i], Text: []byte(text), Source: src, Show: c08Show(text)})
 		c.Args = append(c.Args, names[i])
 	}
@@ -648,7 +653,7 @@ func drawC08(t *rapid.T, cli bool) C08Case {
 		c.Args = append(c.Args, c.Args[0])
 	}
 	if inc != nil {
-		text, src := drawC08Text(t, 4, 5, nil)
+		text, src := drawC08Text(t, 4, 5, nil, 9)
 		c.Files = append(c.Files, C08File{Name: inc.Path, Text: []byte(text), Source: src, Show: c08Show(text)})
 	}
 	return c
